@@ -7,10 +7,10 @@ PR = dict(HIST_PROBES); PR.update({'SZ_rootq': 'sizeof(struct dispatch_queue_glo
 ENT = ['dispatch_apply_f', 'dispatch_queue_create', '_dispatch_continuation_pop', '__dispatch_tsd', '_dispatch_root_queues']
 STUBS = [x for x in HS.H_STUBS] + ['_dispatch_dispose', '_dispatch_xref_dispose', '_dispatch_qos_max_parallelism', '_dispatch_root_queue_poke', '_dispatch_root_queue_push_inline', '_dispatch_client_callout2']
 ICALL = HS.H_ICALL + ['_dispatch_apply_invoke', '_dispatch_apply_redirect_invoke', '_dispatch_apply_serial', '_dispatch_apply_redirect', '_dispatch_apply_invoke_and_wait']
-TN = {0: 'root', 1: 'serial', 2: 'conc', 3: 'conc_on_serial'}
-def A(n, thr, target, helper_at=-1, cw=2, tiers=('quick', 'thorough')):
-    return H('A_%s%s_n%d_t%d_h%s' % (TN[target], ('w%d' % cw) if target >= 2 else '', n, thr, 'x' if helper_at < 0 else str(helper_at)), 'h_apply.c', ENT, stubs=STUBS, noglobal=['_dispatch_queue_attrs', '_dispatch_mgr_q'], icall_only=ICALL,
-             nt=3, heap=4096, defines=['-DNITER=%d' % n, '-DTHR=%d' % thr, '-DTARGET=%d' % target, '-DHELPER_AT=%d' % helper_at, '-DCW=%d' % cw], probes=PR, unwind=4,
+TN = {0: 'root', 1: 'serial', 2: 'conc', 3: 'conc_on_serial', 4: 'conc_on_narrow'}
+def A(n, thr, target, helper_at=-1, cw=2, tiers=('quick', 'thorough'), cw2=2):
+    return H('A_%s%s_n%d_t%d_h%s' % (TN[target], (('w%d' % cw) if target >= 2 else '') + (('v%d' % cw2) if target == 4 else ''), n, thr, 'x' if helper_at < 0 else str(helper_at)), 'h_apply.c', ENT, stubs=STUBS, noglobal=['_dispatch_queue_attrs', '_dispatch_mgr_q'], icall_only=ICALL,
+             nt=3, heap=4096, defines=['-DNITER=%d' % n, '-DTHR=%d' % thr, '-DTARGET=%d' % target, '-DHELPER_AT=%d' % helper_at, '-DCW=%d' % cw, '-DCW2=%d' % cw2], probes=PR, unwind=4,
              unwindset=HS.UNWINDSET + ',_dispatch_root_queue_push_inline.0:6,harness.7:10,_dispatch_apply_f.0:6,_dispatch_apply_invoke2.0:10,_dispatch_apply_serial.0:10', timeout=600, tiers=tiers, witness_any=True, symbolic=False, mem_gb=16,
              note='dispatch_apply_f(%d) on %s, parallelism %d, first helper starts %s' % (n, TN[target] + (' width %d' % cw if target >= 2 else ''), thr, 'after the caller finished claiming' if helper_at < 0 else 'during the caller\'s invocation %d' % helper_at))
 HARNESSES = []
@@ -23,6 +23,7 @@ for n in (0, 1, 2, 3, 4):
             HARNESSES.append(A(n, thr, 2, ha, cw=2))
         HARNESSES.append(A(n, thr, 1))
 HARNESSES += [A(n, thr, 3, cw=cw) for n in (1, 3) for thr in (2, 3) for cw in (2, 4)]
+HARNESSES += [A(n, thr, 4, ha, cw=cw, cw2=cw2) for n in (3, 4) for thr in (3, 4) for (cw, cw2) in ((4, 2), (3, 2), (4, 3)) for ha in (-1, 1)]
 HARNESSES += [A(5, 4, 0, 2, tiers=('thorough',)), A(6, 3, 2, 1, cw=3, tiers=('thorough',)), A(6, 4, 2, 0, cw=2, tiers=('thorough',))]
 PR3 = dict(PR); PR3.update({'OFF_da_index': 'offsetof(struct dispatch_apply_s, da_index)', 'OFF_da_todo': 'offsetof(struct dispatch_apply_s, da_todo)', 'OFF_da_iterations': 'offsetof(struct dispatch_apply_s, da_iterations)',
   'OFF_da_dc': 'offsetof(struct dispatch_apply_s, da_dc)', 'OFF_da_thr_cnt': 'offsetof(struct dispatch_apply_s, da_thr_cnt)', 'OFF_da_event': 'offsetof(struct dispatch_apply_s, da_event)', 'OFF_da_flags': 'offsetof(struct dispatch_apply_s, da_flags)'})
